@@ -54,13 +54,16 @@ def digitsValue (radix : Nat) : List Nat → Nat → Option Nat
     (std checks `checked_mul`/`checked_add|sub` per digit; partial values are monotone, so this is
     the same as checking the final value). -/
 def fromStrRadix (s : List Nat) (radix : Nat) : Option Int :=
+  let pos : List Nat → Option Int := fun ds =>
+    (digitsValue radix ds 0).bind fun m => if (m : Int) ≤ i64Max then some (m : Int) else none
+  let neg : List Nat → Option Int := fun ds =>
+    (digitsValue radix ds 0).bind fun m => if i64Min ≤ -(m : Int) then some (-(m : Int)) else none
   match s with
   | [] => none
-  | [43] => none
-  | [45] => none
-  | 43 :: ds => (digitsValue radix ds 0).bind fun m => if (m : Int) ≤ i64Max then some (m : Int) else none
-  | 45 :: ds => (digitsValue radix ds 0).bind fun m => if i64Min ≤ -(m : Int) then some (-(m : Int)) else none
-  | ds => (digitsValue radix ds 0).bind fun m => if (m : Int) ≤ i64Max then some (m : Int) else none
+  | c :: rest =>
+    if c = 43 then (if rest.isEmpty then none else pos rest)
+    else if c = 45 then (if rest.isEmpty then none else neg rest)
+    else pos (c :: rest)
 
 def optToRes {α : Type} : Option α → Res α
   | some a => .ok a
